@@ -22,8 +22,8 @@ theorem exec_oof_sticky (M : Machine σ α π) (P : Prog) (n : Nat) :
       cases as with
       | nil => exact h
       | cons a as =>
-        by_cases hem : ∃ e g, a = .emit e g
-        · obtain ⟨e, g, rfl⟩ := hem
+        by_cases hem : ∃ e g v, a = .emit e g v
+        · obtain ⟨e, g, v, rfl⟩ := hem
           rw [exec_acts_emit] at h
           have h1 := ih _ _ h
           by_cases c : M.aliveE r.m (r.emId e) = true
@@ -34,16 +34,16 @@ theorem exec_oof_sticky (M : Machine σ α π) (P : Prog) (n : Nat) :
             | none => exact h1
             | some ap =>
               obtain ⟨a, p⟩ := ap
-              simp only at h1
+              simp only [Run.mark] at h1
               have h2 := ih _ _ h1
               exact h2
           · simp only [c] at h1; exact h1
-        · have hne : ∀ e g, a ≠ .emit e g := fun e g he => hem ⟨e, g, he⟩
+        · have hne : ∀ e g v, a ≠ .emit e g v := fun e g v he => hem ⟨e, g, v, he⟩
           rw [exec_acts_prim _ _ _ _ _ _ hne] at h
           have := ih _ _ h
           rw [prim_oof] at this
           exact this
-    | loop a p =>
+    | loop a p v =>
       rw [exec_loop] at h
       cases hn : M.next r.m a p with
       | done => rw [hn] at h; exact h
@@ -73,8 +73,8 @@ theorem exec_fuel_mono (M : Machine σ α π) (P : Prog) (n : Nat) :
       cases as with
       | nil => rfl
       | cons a as =>
-        by_cases hem : ∃ e g, a = .emit e g
-        · obtain ⟨e, g, rfl⟩ := hem
+        by_cases hem : ∃ e g v, a = .emit e g v
+        · obtain ⟨e, g, v, rfl⟩ := hem
           rw [exec_acts_emit] at h ⊢
           rw [exec_acts_emit]
           have h1 := exec_oof_sticky M P n _ _ h
@@ -90,11 +90,11 @@ theorem exec_fuel_mono (M : Machine σ α π) (P : Prog) (n : Nat) :
               rw [ih _ _ h1 k hk]
               exact ih _ _ h k hk
           · simp only [c] at h ⊢; exact ih _ _ h k hk
-        · have hne : ∀ e g, a ≠ .emit e g := fun e g he => hem ⟨e, g, he⟩
+        · have hne : ∀ e g v, a ≠ .emit e g v := fun e g v he => hem ⟨e, g, v, he⟩
           rw [exec_acts_prim _ _ _ _ _ _ hne] at h ⊢
           rw [exec_acts_prim _ _ _ _ _ _ hne]
           exact ih _ _ h k hk
-    | loop a p =>
+    | loop a p v =>
       rw [exec_loop] at h ⊢
       rw [exec_loop]
       cases hn : M.next r.m a p with
